@@ -45,7 +45,7 @@ def gen_line(d: D, table: dict, names: List[str]) -> dict:
         return {"kind": "badvalue", "text": d.pick(cands)}
     if r < 50:
         w = d.pick(["bogus", "Lock", "LOCK", "apply_", "cancel_all", "num_running", "start-", "x", "pool_size", "getgroupids", "-lock", "--lock",
-                    "exit", "quit", "EXIT", "bye", "close", "disconnect", "help", "?"])      # words other programs treat specially: lines like any other
+                    "exit", "quit", "EXIT", "bye", "close", "disconnect", "help", "?", '{"terminal_width":80}', "{}", "null"])      # words other programs treat specially: lines like any other
         return {"kind": "unknown", "text": w + d.pick(["", " 1", " -r", " a b c"])}
     if r < 78:
         cmd = d.pick(names)
@@ -182,7 +182,8 @@ class C18Engine(Engine):
                     {"kind": "valid", "text": "num-running", "s": 0}, {"kind": "badargs", "text": line, "s": 0}, {"kind": "valid", "text": "num-ended", "s": 0}]})
         # words that clients and shells treat specially are lines like any other for the session: answered, session usable afterwards
         for cls in ("TaskPool", "SimpleTaskPool"):
-            for word in ("exit", "quit", "EXIT", "Exit", "bye", "close", "disconnect", "help", "?", "q", "stop-server", "shutdown", "\\q", ":q", "logout"):
+            for word in ("exit", "quit", "EXIT", "Exit", "bye", "close", "disconnect", "help", "?", "q", "stop-server", "shutdown", "\\q", ":q", "logout",
+                         '{"terminal_width":80}', '{"terminal_width":', "{}", "[]", "null", '{"a":1}', '"x"'):
                 for tail in ("", " now", " -h"):
                     c = {"cls": cls, "size": None, "width": 80, "nsess": 2, "stop_phase": False, "lines": [
                         {"kind": "valid", "text": "num-running", "s": 0}, {"kind": "unknown", "text": word + tail, "s": 0},
